@@ -384,9 +384,10 @@ def _run_item(i):
             run_lemma(it, rep, timeout_s, baseline)
         else:
             run_spec(it, rep, timeout_s, baseline, findings)
-            run_canary(it, rep, timeout_s)
+            if getattr(it, "_shard", 0) == 0:
+                run_canary(it, rep, timeout_s)
             n = it.cross_check if tier == "quick" else it.cross_check * 5
-            if n:
+            if n and getattr(it, "_shard", 0) == 0:
                 rep.cross_checked += cross_check(it, rep, n)
     except Exception:
         rep.undecided.append({"spec": it.name, "why": "checker crash: " + traceback.format_exc()[-2000:]})
@@ -438,6 +439,10 @@ def main(argv=None):
     items = mod.contracts(tier)
     if args.only:
         items = [x for x in items if x.name == args.only]
+    expanded = []
+    for it in items:
+        expanded.extend(it.shards(16) if isinstance(it, H.Spec) else [it])
+    items = expanded
     global _ITEMS
     _ITEMS = (items, args.prop, tier, seed, timeout_s, baseline, findings)
     jobs = int(os.environ.get("VERIF_JOBS", "0")) or min(16, os.cpu_count() or 4)
